@@ -324,7 +324,13 @@ def main():
         except OSError:
             pass
         if summ is None or not summ.get("complete"):
-            # child died before writing its summary
+            # child died before writing its summary; an interim summary (written at the first occurrence of
+            # each violation signature) still says what its monitors had seen by then
+            if summ is not None:
+                for v in summ.get("violations") or []:
+                    violations.append((v["sig"], v["desc"], v.get("witness"), pname, sh))
+                for k, v in (summ.get("viol_count") or {}).items():
+                    viol_counts[k] = viol_counts.get(k, 0) + v
             head = ""
             m = re.search(r"^(panic: .*|fatal error: .*)$", logtxt, re.M)
             if m:
